@@ -92,11 +92,11 @@ var wrappers = []wrapper{
 	{name: "eval_indirect", tmpl: `(0, eval)("@");`, quoted: true, cut: true},
 	{name: "Function", tmpl: `Function("@")();`, quoted: true, cut: true},
 	{name: "try_c.body", tmpl: `try { @ } catch (x_#) { ` + cls + ` }`, exc: excCatch, tryRegion: true},
-	{name: "try_c.catch", tmpl: `try { throw "t"; } catch (e_#) { @ }`, tryRegion: true, inject: injCatch},
+	{name: "try_c.catch", tmpl: `try { throw "t"; } catch (e_#) { ce_# = e_#; @ }`, tryRegion: true, inject: injCatch},
 	{name: "try_f.body", tmpl: `try { @ } finally { fin_# = 1; }`, exc: excFin, tryRegion: true, finOK: true},
 	{name: "try_f.fin", tmpl: `try { tb_# = 1; } finally { @ }`},
 	{name: "try_cf.body", tmpl: `try { @ } catch (x_#) { ` + cls + ` } finally { fin_# = 1; }`, exc: excCatchFin, tryRegion: true, finOK: true},
-	{name: "try_cf.catch", tmpl: `try { throw "t"; } catch (e_#) { @ } finally { fin_# = 1; }`, exc: excFin, tryRegion: true, inject: injCatch, finOK: true},
+	{name: "try_cf.catch", tmpl: `try { throw "t"; } catch (e_#) { ce_# = e_#; @ } finally { fin_# = 1; }`, exc: excFin, tryRegion: true, inject: injCatch, finOK: true},
 	{name: "try_cf.fin", tmpl: `try { throw "t"; } catch (x_#) { ` + cls + ` } finally { @ }`, cOK: true},
 	{name: "lcall", tmpl: `lf_# = function(){ @ }; L_#: lf_#();`},
 	{name: "lblock", tmpl: `L_#: { @ break L_#; }`},
@@ -117,7 +117,7 @@ var wrappers = []wrapper{
 const maxDepth = 2
 
 // per-level global names used by the wrappers and markers
-var levelNames = []string{"pre", "aft", "post", "c", "fin", "tb", "f", "m", "C", "d", "i", "w", "k", "cb", "v", "lf"}
+var levelNames = []string{"pre", "aft", "post", "c", "fin", "tb", "f", "m", "C", "d", "i", "w", "k", "cb", "v", "lf", "ce"}
 
 // body-level global names ("o.p" is read through the object o)
 var bodyNames = []string{"g1", "g2", "o.p", "i0", "s0", "ra", "rb", "probe"}
